@@ -1145,8 +1145,35 @@ func (f *Frugal) validateTypedefs() error {
 			return fmt.Errorf("Invalid alias %s, type %s doesn't exist",
 				typedef.Name, typedef.Type.Name)
 		}
+		if f.typedefRefersTo(typedef.Type, typedef.Name, map[string]bool{}) {
+			return fmt.Errorf("Invalid alias %s, circular typedef", typedef.Name)
+		}
 	}
 	return nil
+}
+
+// typedefRefersTo reports whether resolving t (through local typedefs and
+// container element types) leads back to the typedef called name. Included
+// files are validated on their own and cannot refer back to this file.
+func (f *Frugal) typedefRefersTo(t *Type, name string, visited map[string]bool) bool {
+	if t == nil {
+		return false
+	}
+	if t.IsContainer() {
+		return f.typedefRefersTo(t.KeyType, name, visited) || f.typedefRefersTo(t.ValueType, name, visited)
+	}
+	if t.IncludeName() != "" {
+		return false
+	}
+	if t.Name == name {
+		return true
+	}
+	typedef, ok := f.typedefIndex[t.Name]
+	if !ok || visited[t.Name] {
+		return false
+	}
+	visited[t.Name] = true
+	return f.typedefRefersTo(typedef.Type, name, visited)
 }
 
 func (f *Frugal) validateStructs() error {
